@@ -45,6 +45,9 @@ var wanted = []string{
 	"Section", "SectionExtHeader", "SectionHeader", "TypeSpecificHeader",
 	"SectionGUIDDefined", "SectionGUIDDefinedHeader", "DepExOp",
 	"TypedFirmware", "BIOSRegion", "BIOSPadding", "NVarStore", "NVar", "NVarHeader",
+	// flash level
+	"FlashImage", "FlashDescriptor", "FlashDescriptorMap", "FlashRegionSection", "FlashRegion",
+	"FlashMasterSection", "RegionPermissions", "RawRegion", "MERegion",
 }
 
 type field struct {
@@ -133,6 +136,112 @@ func flatten(name string, seen map[string]bool) []field {
 	return out
 }
 
+// regionNames emits jf_region_type_names : list (Z * string) from the const block that declares
+// RegionTypeBIOS ... (iota) and the composite literal flashRegionTypeNames.
+func regionNames(pkg *ast.Package, b *bytes.Buffer) {
+	vals := map[string]int{}
+	var lit *ast.CompositeLit
+	for _, f := range pkg.Files {
+		for _, d := range f.Decls {
+			gd, ok := d.(*ast.GenDecl)
+			if !ok {
+				continue
+			}
+			if gd.Tok == token.CONST {
+				isBlock := false
+				for i, sp := range gd.Specs {
+					vs := sp.(*ast.ValueSpec)
+					if i == 0 {
+						if id, ok := vs.Type.(*ast.Ident); ok && id.Name == "FlashRegionType" && len(vs.Values) == 1 {
+							if v, ok := vs.Values[0].(*ast.Ident); ok && v.Name == "iota" {
+								isBlock = true
+							}
+						}
+					}
+					if !isBlock {
+						break
+					}
+					if len(vs.Names) != 1 {
+						fatal(vs.Pos(), "FlashRegionType constant block: one name per line expected")
+					}
+					switch {
+					case len(vs.Values) == 0 || i == 0:
+						vals[vs.Names[0].Name] = i
+					default:
+						// an explicit value: only a (possibly negative) integer literal is understood
+						neg := false
+						e := vs.Values[0]
+						if u, ok := e.(*ast.UnaryExpr); ok && u.Op == token.SUB {
+							neg, e = true, u.X
+						}
+						bl, ok := e.(*ast.BasicLit)
+						if !ok || bl.Kind != token.INT {
+							fatal(vs.Pos(), "FlashRegionType constant %s: unsupported value", vs.Names[0].Name)
+						}
+						n, err := strconv.Atoi(bl.Value)
+						if err != nil {
+							fatal(vs.Pos(), "%v", err)
+						}
+						if neg {
+							n = -n
+						}
+						vals[vs.Names[0].Name] = n
+					}
+				}
+			}
+			if gd.Tok == token.VAR {
+				for _, sp := range gd.Specs {
+					vs := sp.(*ast.ValueSpec)
+					if len(vs.Names) == 1 && vs.Names[0].Name == "flashRegionTypeNames" && len(vs.Values) == 1 {
+						lit, _ = vs.Values[0].(*ast.CompositeLit)
+					}
+				}
+			}
+		}
+	}
+	if lit == nil || len(vals) == 0 {
+		fatal(token.NoPos, "flashRegionTypeNames or the FlashRegionType constants not found in pkg/uefi")
+	}
+	type ent struct {
+		v int
+		s string
+	}
+	var ents []ent
+	for _, e := range lit.Elts {
+		kv, ok := e.(*ast.KeyValueExpr)
+		if !ok {
+			fatal(e.Pos(), "flashRegionTypeNames: key/value expected")
+		}
+		k, ok := kv.Key.(*ast.Ident)
+		v, ok2 := kv.Value.(*ast.BasicLit)
+		if !ok || !ok2 || v.Kind != token.STRING {
+			fatal(e.Pos(), "flashRegionTypeNames: identifier key and string value expected")
+		}
+		n, known := vals[k.Name]
+		if !known {
+			fatal(e.Pos(), "flashRegionTypeNames: unknown constant %s", k.Name)
+		}
+		str, _ := strconv.Unquote(v.Value)
+		ents = append(ents, ent{n, str})
+	}
+	sort.Slice(ents, func(i, j int) bool { return ents[i].v < ents[j].v })
+	b.WriteString("(* FlashRegionType.String(): the names of the declared region types (any other value prints as\n")
+	b.WriteString("   \"Unknown Region (<value>)\") *)\n")
+	b.WriteString("Definition jf_region_type_names : list (Z * string) :=\n  [")
+	for i, e := range ents {
+		if i > 0 {
+			b.WriteString(";\n   ")
+		}
+		fmt.Fprintf(b, "(%d, %q)", e.v, e.s)
+	}
+	b.WriteString("]%Z.\n\n")
+	unk, ok := vals["RegionTypeUnknown"]
+	if !ok {
+		fatal(token.NoPos, "RegionTypeUnknown not found")
+	}
+	fmt.Fprintf(b, "Definition jf_region_type_unknown : Z := (%d)%%Z.\n\n", unk)
+}
+
 func main() {
 	if len(os.Args) != 3 {
 		fmt.Fprintln(os.Stderr, "usage: translate-c07 <repo> <out.v>")
@@ -187,7 +296,7 @@ func main() {
 	b.WriteString("   declarations of pkg/uefi/*.go; do not edit.  For every node type of the firmware tree: its fields as\n")
 	b.WriteString("   encoding/json sees them (embedded structs flattened), with the flag \"exported and not tagged json:\\\"-\\\"\",\n")
 	b.WriteString("   i.e. the field is written by json.Marshal and read back by json.Unmarshal under the default rules. *)\n")
-	b.WriteString("From Coq Require Import String List.\nImport ListNotations.\nLocal Open Scope string_scope.\n\n")
+	b.WriteString("From Coq Require Import String List ZArith.\nImport ListNotations.\nLocal Open Scope string_scope.\n\n")
 	for _, name := range wanted {
 		fs := flatten(name, map[string]bool{})
 		seen := map[string]bool{}
@@ -208,6 +317,8 @@ func main() {
 		}
 		b.WriteString("].\n\n")
 	}
+	// FlashRegionType.String(): the constants of the iota block and the name map
+	regionNames(pkg, &b)
 	// informative: the types of the package with hand-written (un)marshalers
 	var cs []string
 	for k := range custom {
